@@ -23,7 +23,7 @@ ASSUMPTIONS = ['an observer cannot verify plays from the two concealed hands; th
 
 
 def plan(tier):
-    n, per = (14, 60) if tier == 'quick' else (16, 2500)
+    n, per = (16, 250) if tier == 'quick' else (16, 2500)
     return [{'kind': 'faults', 'n': per} for _ in range(n)]
 
 
